@@ -93,17 +93,30 @@ def manifest():
     m = json.load(open(os.path.join(HOME, 'MANIFEST.json')))
     lines = ['| id | level | engine | technique |', '|---|---|---|---|']
     for c in m.get('checks', []):
-        lines.append(f"| {c.get('property_id')} | {c.get('level')} | {c.get('engine', '')} | {c.get('technique', '').replace('|', '/')} |")
+        lines.append(f"| {c.get('property_id')} | {(c.get('level_claimed') or {}).get('category')} | {c.get('engine', '')} | {c.get('technique', '').replace('|', '/')} |")
     na = m.get('not_applicable', [])
     lines.append('')
     lines.append('`not_applicable`: ' + (', '.join(f"{x.get('property_id')} ({x.get('reason')})" for x in na) if na else 'none.'))
     return '\n'.join(lines)
 
 
+def measured():
+    lines = ['| id | tier | evaluations | distinct non-trivial | known findings met | wall s (at the load of that run) |', '|---|---|---|---|---|---|']
+    for pid in IDS:
+        p = os.path.join(HOME, 'evidence', pid + '.json')
+        if not os.path.exists(p):
+            lines.append(f'| {pid} | - | - | - | - | - |')
+            continue
+        d = json.load(open(p))
+        c = d.get('coverage', {})
+        lines.append(f"| {pid} | {d.get('tier')} | {c.get('evaluations')} | {c.get('distinct_nontrivial', c.get('nontrivial'))} | {len(c.get('known_findings_hit', {}) or {})} | {d.get('wall_s')} |")
+    return '\n'.join(lines)
+
+
 def main():
     path = os.path.join(HOME, 'DESIGN.md')
     text = open(path).read()
-    gens = {'findings': findings, 'sensitivity': sensitivity, 'seeded': seeded, 'manifest': manifest}
+    gens = {'measured': measured, 'findings': findings, 'sensitivity': sensitivity, 'seeded': seeded, 'manifest': manifest}
     for pid in IDS:
         gens['asbuilt:' + pid] = (lambda p=pid: asbuilt(p))
     changed = []
